@@ -1,0 +1,69 @@
+//go:build verif
+
+package jet
+
+// Contracts for ranger.go, checked by /verif/jetvc. Comments only; compiled only under the build tag "verif".
+
+//@ func (*sliceRanger).Setup
+//@   props C05
+//@   requires r != nil
+//@   modifies r.i, r.v
+//@   nopanic
+//@   ensures [setup-resets-the-cursor] r.i == 0 && r.v == v
+
+//@ func (*sliceRanger).Range
+//@   props C05 C07
+//@   requires r != nil && 0 <= r.i && r.i <= RvLen(r.v)
+//@   modifies r.i
+//@   ensures [one-element-per-call-in-order] ite(old(r.i) == RvLen(r.v), end && r.i == old(r.i), !end && index == RvOf(iface(old(r.i), "int")) && value == RvIndex(r.v, old(r.i)) && r.i == old(r.i) + 1)
+//@   ensures [no-view-of-the-cursor] {C07} !RvIsView(index) && (RvIsView(value) ==> RvIsView(r.v))
+
+//@ func (*sliceRanger).ProvidesIndex
+//@   props C05
+//@   nopanic
+//@   ensures result
+
+//@ func (*mapRanger).ProvidesIndex
+//@   props C05
+//@   nopanic
+//@   ensures result
+
+//@ func (*chanRanger).ProvidesIndex
+//@   props C05
+//@   nopanic
+//@   ensures [channels-have-no-index] !result
+
+//@ func (*intsRanger).ProvidesIndex
+//@   props C05
+//@   nopanic
+//@   ensures result
+
+//@ func newIntsRanger
+//@   props C05
+//@   nopanic
+//@   ensures [ints-starts-before-from] fresh(result) && result.i == -1 && result.val == from - 1 && result.to == to
+
+//@ func (*intsRanger).Range
+//@   props C05 C07
+//@   requires r != nil
+//@   modifies r.i, r.val
+//@   ensures [ints-counts-from-a-up-to-b-minus-1] r.i == old(r.i) + 1 && r.val == old(r.val) + 1 && end == (r.val == r.to)
+//@   ensures [no-view-of-the-cursor] {C07} !RvIsView(index) && !RvIsView(value)
+
+//@ func (*chanRanger).Setup
+//@   props C05
+//@   requires r != nil
+//@   modifies r.v
+//@   nopanic
+//@   ensures r.v == v
+
+//@ func (*mapRanger).Setup
+//@   props C05
+//@   requires r != nil
+//@   modifies r.iter, r.hasMore
+
+//@ func (*mapRanger).Range
+//@   props C05
+//@   requires r != nil
+//@   modifies r.hasMore
+//@   ensures [map-ends-when-iterator-exhausted] end == !old(r.hasMore)
